@@ -317,7 +317,7 @@ def inject_stream(ctx, prop):
             cases.append(c)
             n_write += 1 if '%log' in c[1] else 0
     rc, impl_raw, err = run_lines(exe, [c[1] for c in cases])
-    rc2, model, err2 = run_lines(driver_path(), [c[0] for c in cases])
+    rc2, model, err2 = run_model_lines([c[0] for c in cases])
     fails, mism = 0, 0
     if rc != 0 and len(impl_raw) < len(cases):
         # the real code died (sanitizer report, assertion, crash) on this schedule: that is a failing input
@@ -391,7 +391,7 @@ def reuse_stream(ctx, prop):
     lines = [gen_reuse_script(rng) for _ in range(n)]
     env = {'ASAN_OPTIONS': 'detect_leaks=0:abort_on_error=0:quarantine_size_mb=0:thread_local_quarantine_size_kb=0'}
     rc, impl, err = run_lines(exe, lines, env=env, stall=90, timeout=3600)
-    rc2, model, err2 = run_lines(driver_path(), lines)
+    rc2, model, err2 = run_model_lines(lines)
     fails, mism = 0, 0
     for i, l in enumerate(lines):
         if i >= len(impl):
@@ -537,7 +537,7 @@ def ra_stream(ctx, n):
             else:
                 out.append(' '.join(t))
         mlines.append(' | '.join(out))
-    rc2, model, err2 = run_lines(driver_path(), mlines)
+    rc2, model, err2 = run_model_lines(mlines)
     mism, stale, fails = [], 0, []
     for i, l in enumerate(lines):
         if i >= len(impl) or i >= len(model):
@@ -730,7 +730,7 @@ def check_c19(ctx):
         return out[0] if out else '<died: %s>' % err[-200:]
     with ThreadPoolExecutor(max_workers=16) as ex:
         impl = list(ex.map(one, lines))
-    rc, model, err = run_lines(driver_path(), lines)
+    rc, model, err = run_model_lines(lines)
     mism, prop_fail, nontrivial = [], set(), set()
     for i, l in enumerate(lines):
         b = model[i] if i < len(model) else '<none>'
